@@ -34,18 +34,32 @@ def setup(case):
             n, d = X.shape
             g = np.random.Generator(np.random.PCG64(int(pre["seed"])))
             spread = np.where(X.std(axis=0) > 0, X.std(axis=0), 1.0)[None, :]
-            if pre["dn"] < 0:
+            if pre.get("dd"):
+                # the earlier data set had another number of dimensions - and, if there is one, the number of points for which the kernel
+                # has the same total number of hyper-parameters as now (split differently between its components)
+                def max_axis(sp):
+                    return max([sp.get("axis", 0) if sp["k"] == "CP" else 0] + [max_axis(q) for q in sp.get("parts", [])])
+
+                d_e = max(1, d + pre["dd"], max_axis(spec) + 1)      # (a change-point kernel needs the axis it divides)
+                n_e = next((k for k in range(1, n + 8) if d_e != d and rk.n_params(spec, k, d_e) == rk.n_params(spec, n, d)), max(1, n + pre["dn"]))
+                Xe = g.normal(size=(n_e, d_e))
+                cov.pass_spatial_data(Xe)
+                with np.errstate(all="ignore"), warnings.catch_warnings():
+                    warnings.simplefilter("ignore")
+                    cov.estimate_hyperpar_bounds(g.normal(size=n_e))
+            elif pre["dn"] < 0:
                 Xe = X[: max(1, n + pre["dn"])]
             elif pre["dn"] == 0:
                 Xe = X + spread * g.normal(size=(n, d))     # same size, different points
             else:
                 Xe = np.vstack([X, X.mean(axis=0)[None, :] + spread * g.normal(size=(pre["dn"], d))])
-            cov.pass_spatial_data(Xe)
-            with np.errstate(all="ignore"), warnings.catch_warnings():
-                warnings.simplefilter("ignore")
-                cov.estimate_hyperpar_bounds(g.normal(size=Xe.shape[0]))
-                if Xe.shape[0] == n or not rk.has(spec, "Hetero"):
-                    cov.build_covariance(gc.theta_from_unit(spec, case, X, ys))
+            if not pre.get("dd"):
+                cov.pass_spatial_data(Xe)
+                with np.errstate(all="ignore"), warnings.catch_warnings():
+                    warnings.simplefilter("ignore")
+                    cov.estimate_hyperpar_bounds(g.normal(size=Xe.shape[0]))
+                    if Xe.shape[0] == n or not rk.has(spec, "Hetero"):
+                        cov.build_covariance(gc.theta_from_unit(spec, case, X, ys))
         cov.pass_spatial_data(X)
     except Exception as e:
         raise Violation(f"pass_spatial_data:{classify(spec, case['d'])}", f"{type(e).__name__}: {e}")
@@ -349,7 +363,8 @@ def body_means(case, ctx):
 def _with_earlier_data(draw, base):
     case = draw(base)
     if draw(st.integers(0, 3)) == 0:
-        case["earlier_data"] = {"dn": draw(st.sampled_from([-3, -1, 0, 1, 2, 5])), "seed": draw(st.integers(0, 10**6))}
+        case["earlier_data"] = {"dn": draw(st.sampled_from([-3, -1, 0, 1, 2, 5])), "seed": draw(st.integers(0, 10**6)),
+                                "dd": draw(st.sampled_from([0, 0, 0, 1, -1, 2]))}
     return case
 
 
@@ -386,7 +401,7 @@ def body_forms(case, ctx):
     step, shift = float(case.get("x_step", 1)), (9.0 if case.get("x_shift") else 0.0)
     X, U = (X + shift) * step, (U + shift) * step
     theta = rk.move_theta(theta, rk.param_roles(spec, n, d), step=step, shift=shift)
-    tol = 1e-12 if form != "float32" else 1e-5
+    tol = 1e-12        # (also for single-precision coordinates: they hold these whole numbers exactly - the same points)
     outs = []
     for f in ("float64", form):
         cov, mean = rk.build_kernel(spec), rk.build_mean(case["mean"])
